@@ -59,7 +59,7 @@ Qed.
 
 (* ---- tickit_window_close --------------------------------------------------------------------------- *)
 Lemma close_spec : forall D fuel w cw h,
-  hinv D h -> findw h w = Some cw ->
+  hinv D h -> findw h w = Some cw -> (w_parent cw <> None -> ~ In root D) ->
   hoare (fun h1 => h1 = h) (close fixed fuel w)
         (fun _ h' => hinv D h' /\ wkeeps h h' /\ shrinks h h' /\
                      (w <> root -> unqueued h' w) /\
@@ -68,7 +68,7 @@ Lemma close_spec : forall D fuel w cw h,
                      (forall a c, a <> w -> findw h a = Some c ->
                         exists c', findw h' a = Some c' /\ w_parent c' = w_parent c /\ w_ref c' = w_ref c)).
 Proof.
-  intros D fuel w cw h HI Hw h1 E. subst h1. unfold close. cbn [v_close_nopurge fixed].
+  intros D fuel w cw h HI Hw Hnrd h1 E. subst h1. unfold close. cbn [v_close_nopurge fixed].
   unfold bind at 1. rewrite (getw_run h w cw Hw).
   (* the last step, common to both branches *)
   assert (Hlast : forall h2 cw2, hinv D h2 -> findw h2 w = Some cw2 -> w_parent cw2 = None ->
@@ -95,6 +95,7 @@ Proof.
         destruct (Hq3 q cq Hfq) as [x [p [cx [G1 [G2 [G3 [G4 G5]]]]]]]. exists x, p, cx. repeat split; auto.
         * unfold on. destruct (Pos.eqb w x); cbn; auto.
         * eapply cells_by_anc; eauto. intros a c Ha Hfa _. unfold on. destruct (Pos.eqb w a); reflexivity.
+      + apply (drag_kept D h2 h3 _ HI2 CB). intros a c Hfa. unfold on. destruct (Pos.eqb w a); reflexivity.
     - eapply cells_by_keeps; eauto. intros a c Hf. unfold on. destruct (Pos.eqb w a); cbn; auto.
     - unfold h3. rewrite findw_upd_cell_same. rewrite Hw2. reflexivity.
     - intros a Ha. unfold h3. apply findw_upd_cell_other. congruence. }
@@ -102,12 +103,13 @@ Proof.
   - (* attached: purge, then remove *)
     unfold bind at 1. unfold bind at 1.
     assert (Hlw : findw h w <> None) by congruence.
-    pose proof (purge_spec D fuel w h HI Hlw h eq_refl) as Hpg.
+    assert (Hnr : ~ In root D) by (apply Hnrd; discriminate).
+    pose proof (purge_spec D fuel w h HI Hlw Hnr h eq_refl) as Hpg.
     destruct (purge fixed fuel w h) as [u1 h1| |]; [|contradiction|exact I].
-    destruct Hpg as [HI1 [[Hw1 Hnw1] [Hu1 Hold1]]].
+    destruct Hpg as [HI1 [[Hw1 Hnw1] [Hu1 [Hold1 Hund1]]]].
     assert (Fw1 : forall a, findw h1 a = findw h a) by (intro; unfold findw; rewrite Hw1; reflexivity).
     assert (Hw' : findw h1 w = Some cw) by (rewrite Fw1; exact Hw).
-    pose proof (do_remove_spec D fuel p w cw h1 HI1 Hw' Hwp Hu1 h1 eq_refl) as Hrm.
+    pose proof (do_remove_spec D fuel p w cw h1 HI1 Hw' Hwp Hu1 Hund1 h1 eq_refl) as Hrm.
     destruct (do_change fuel ChRemove p w h1) as [u2 h2| |]; [|contradiction|exact I].
     destruct Hrm as [HI2 [K2 [[cw2 [Hw2 [Hp2 [Hn2 [Hf2 [Hc2 Hfo2]]]]]] Hex2]]].
     rewrite (upd_run h2 w _ cw2 Hw2).
@@ -192,11 +194,11 @@ Definition pop_F (w k : positive) (cw : wcell) (nxt : ptr) : positive -> wcell -
               (on w (fun _ => set_first cw nxt) a c)).
 
 Lemma hinv_pop : forall D h h' w k cw ck,
-  hinv D h -> In w D -> findw h w = Some cw -> w_first cw = Some k -> findw h k = Some ck ->
+  hinv D h -> In w D -> findw h w = Some cw -> w_parent cw = None -> w_first cw = Some k -> findw h k = Some ck ->
   unqueued h w -> cells_by h h' (pop_F w k cw (w_next ck)) ->
   hinv D h' /\ keeps h h'.
 Proof.
-  intros D h h' w k cw ck HI Hin Hw Hfi Hk Hunq CB.
+  intros D h h' w k cw ck HI Hin Hw Hwpar Hfi Hk Hunq CB.
   destruct (hinv_first_live D h w cw k HI Hw Hfi) as [ck' [Hk' Hkp]].
   rewrite Hk in Hk'. inversion Hk'; subst ck'.
   assert (Hlt : (w < k)%positive) by exact (hi_parent_lt D h HI k ck w Hk Hkp).
@@ -215,8 +217,18 @@ Proof.
   assert (Hunq' : forall q cq x, findq h q = Some cq -> q_win cq = Some x -> ~ anc h x k).
   { intros q cq x Hq Hx Ha. apply (Hunq q cq x Hq Hx). eapply anc_trans; eauto.
     eapply anc_step; eauto. eapply anc_refl; eauto. }
+  assert (Hund' : forall d, r_drag (rx h) = Some (Some d) -> ~ In root D -> findw h root <> None -> ~ anc h d k).
+  { intros d Hd Hnr Hlr Ha. destruct (hi_drag D h HI) as [od [E Hda]]. rewrite E in Hd. inversion Hd; subst od.
+    pose proof (Hda d eq_refl Hnr Hlr) as Hroot.
+    assert (Hdw : anc h d w) by (eapply anc_trans; [exact Ha|]; eapply anc_step; eauto; eapply anc_refl; eauto).
+    assert (Ewr : w = root).
+    { destruct (anc_linear h d w Hdw root Hroot) as [H|H].
+      - symmetry. exact (anc_top h w root cw H Hw Hwpar).
+      - destruct (findw h root) as [cr|] eqn:Hfr; [|congruence].
+        exact (anc_top h root w cr H Hfr (hi_root_parent D h HI cr Hfr)). }
+    apply Hnr. rewrite <- Ewr. exact Hin. }
   split.
-  - exact (hinv_remove D h h' w k ck cw [] l3 (SFirst w) (fun c => c) Hkf (or_introl Hin) HI Hk Hkp Hw Hch Hs Hunq' CB').
+  - exact (hinv_remove D h h' w k ck cw [] l3 (SFirst w) (fun c => c) Hkf (or_introl Hin) HI Hk Hkp Hw Hch Hs Hunq' Hund' CB').
   - eapply cells_by_keeps; eauto. intros a c Hfa.
     destruct (rm_F_flags h h' w k ck [] (SFirst w) (fun c => c) Hkf Hs CB' a c) as [Hr1 [_ Hr3]]. split; [|auto].
     destruct (Pos.eq_dec a k) as [Ea|Ea].
@@ -294,7 +306,15 @@ Proof.
       exists x, p, cx. repeat split; auto.
       rewrite Fw; auto. apply Hpath. eapply anc_refl; eauto.
   - exact (hi_qkind (w :: D) h HI).
-  - exact (hi_drag (w :: D) h HI).
+  - destruct (hi_drag (w :: D) h HI) as [od [E Hda]]. exists od. split; [exact E|]. intros d Ed Hnr Hlr.
+    assert (Hwr : w <> root) by (intro Ew; subst w; apply Hlr; exact Fww).
+    assert (Hnr' : ~ In root (w :: D)) by (intros [Ew|Hi]; [congruence|contradiction]).
+    assert (Hlr0 : findw h root <> None) by (rewrite <- (Fw root); auto).
+    pose proof (Hda d Ed Hnr' Hlr0) as G5.
+    apply Hanc; [exact G5|]. intros a Ha Ea. subst a. destruct (anc_linear h d w Ha root G5) as [H|H].
+    + apply Hwr. symmetry. exact (anc_top h w root cw H Hw Hp).
+    + destruct (findw h root) as [cr|] eqn:Hfr; [|congruence].
+      apply Hwr. exact (anc_top h root w cr H Hfr (hi_root_parent (w :: D) h HI cr Hfr)).
   - intros a Ha. destruct (findw h' a) as [c|] eqn:Hf; [|congruence]. destruct (Flive a c Hf) as [_ Hf0].
     apply (hi_nextw (w :: D) h HI). congruence.
   - exact (hi_nextw_root (w :: D) h HI).
@@ -321,6 +341,7 @@ Proof.
   intros D D' h [K P PL O F R C I RP Q QK Dg NW NWR NQ] Hsub. constructor; auto.
   - intros a c f Hf Hd. apply (F a c f Hf). auto.
   - intros a c Hf Hd. apply (R a c Hf). auto.
+  - destruct Dg as [od [E Hda]]. exists od. split; [exact E|]. intros d Ed Hnr Hl. apply Hda; auto.
 Qed.
 
 (* the unfolding equations of the mutual recursion *)
@@ -358,10 +379,12 @@ Proof. reflexivity. Qed.
 
 Definition unref_ok (f : nat) : Prop := forall D h w,
   hinv D h -> detached h D -> findw h w <> None -> ~ In w D ->
+  (forall c, findw h w = Some c -> w_parent c <> None -> ~ In root D) ->
   hoare (fun h1 => h1 = h) (unref fixed f w) (fun _ h' => hinv D h' /\ detached h' D /\ shrinks h h').
 
 Definition destroy_ok (f : nat) : Prop := forall D h w cw,
   hinv (w :: D) h -> detached h D -> findw h w = Some cw -> ~ In w D ->
+  (w_parent cw <> None -> ~ In root D) ->
   hoare (fun h1 => h1 = h) (destroy fixed f w)
         (fun _ h' => hinv D h' /\ detached h' D /\ shrinks h h' /\ findw h' w = None).
 
@@ -373,7 +396,7 @@ Definition loop_ok (f : nat) : Prop := forall D h w,
 
 Lemma unref_step : forall f, destroy_ok f -> unref_ok (S f).
 Proof.
-  intros f Hdes D h w HI Hdet Hlw Hn h1 E. subst h1.
+  intros f Hdes D h w HI Hdet Hlw Hn Hrd h1 E. subst h1.
   destruct (live_some h w Hlw) as [c Hw].
   rewrite unref_S. unfold bind at 1. rewrite (getw_run h w c Hw).
   pose proof (hi_ref D h HI w c Hw Hn) as Href.
@@ -394,7 +417,7 @@ Proof.
       - intros a c' Hf Hd. assert (Ha : a <> w) by (intro E; subst a; apply Hd; left; reflexivity).
         destruct (Href1 a c' Hf Ha) as [c0 [H0 E0]]. rewrite E0. apply (hi_ref D h HI a c0 H0).
         intro Hin. apply Hd. right. exact Hin. }
-    pose proof (Hdes D h1 w _ HI1 (links_eq_detached h h1 D L Hdet) Hw1 Hn h1 eq_refl) as Hd.
+    pose proof (Hdes D h1 w _ HI1 (links_eq_detached h h1 D L Hdet) Hw1 Hn (Hrd c Hw) h1 eq_refl) as Hd.
     destruct (destroy fixed f w h1) as [u h2| |]; [|contradiction|exact I].
     destruct Hd as [HI2 [Hdet2 [Sh2 _]]]. split; [exact HI2|]. split; [exact Hdet2|].
     eapply shrinks_trans; [apply links_eq_shrinks; exact L|exact Sh2].
@@ -425,7 +448,7 @@ Proof.
     assert (CB : cells_by h h3 (pop_F w k cw (w_next ck))).
     { unfold pop_F. eapply cells_by_trans with (h2 := h2); [|apply cells_by_on].
       eapply cells_by_trans with (h2 := h1); apply cells_by_on. }
-    destruct (hinv_pop (w :: D) h h3 w k cw ck HI (or_introl eq_refl) Hw Hfi Hk Hunq CB) as [HI3 K3].
+    destruct (hinv_pop (w :: D) h h3 w k cw ck HI (or_introl eq_refl) Hw Hwp Hfi Hk Hunq CB) as [HI3 K3].
     assert (Hdet3 : detached h3 (w :: D)).
     { intros a Ha. destruct (Hdet a Ha) as [ca [Hfa Hpa]].
       destruct (kp_wins h h3 K3 a ca Hfa) as [ca' [Hfa' [[Ep|Ep] _]]]; exists ca'; split; auto; congruence. }
@@ -435,7 +458,10 @@ Proof.
     { intros [Ek|Ek]; [congruence|]. destruct (Hdet k (or_intror Ek)) as [ck' [Hfk' Hpk']].
       rewrite Hk in Hfk'. inversion Hfk'; subst ck'. congruence. }
     unfold bind at 1.
-    pose proof (Hunref (w :: D) h3 k HI3 Hdet3 Hk3l Hnk h3 eq_refl) as Hu.
+    assert (Hk3p : forall c, findw h3 k = Some c -> w_parent c <> None -> ~ In root (w :: D)).
+    { intros c Hc Hpc. exfalso. apply Hpc. unfold h3 in Hc. rewrite findw_upd_cell_same in Hc. rewrite Hk2 in Hc. cbn in Hc.
+      inversion Hc. reflexivity. }
+    pose proof (Hunref (w :: D) h3 k HI3 Hdet3 Hk3l Hnk Hk3p h3 eq_refl) as Hu.
     destruct (unref fixed f k h3) as [u h4| |]; [|contradiction|exact I].
     destruct Hu as [HI4 [Hdet4 Sh4]].
     assert (Sh04 : shrinks h h4) by (eapply shrinks_trans; [apply keeps_shrinks; exact K3|exact Sh4]).
@@ -451,7 +477,7 @@ Proof. intros h a c Hf. unfold freew. unfold findw in Hf. rewrite Hf. reflexivit
 
 Lemma destroy_step : forall f, loop_ok f -> destroy_ok (S f).
 Proof.
-  intros f Hloop D h w cw HI Hdet Hw Hn h1 E. subst h1.
+  intros f Hloop D h w cw HI Hdet Hw Hn Hrd h1 E. subst h1.
   rewrite destroy_S_fixed.
   (* the DESTROY binding of the harness: a log entry *)
   unfold bind at 1. unfold log_destroy.
@@ -473,7 +499,9 @@ Proof.
     - cbn. split; [exact HI1|]. split; [apply wkeeps_refl|]. split; [apply shrinks_refl|].
       pose proof (hi_closed (w :: D) h1 HI1 w cw Hw1 Hcl) as Hp. split; [|eauto].
       intro Hnr. eapply unqueued_off_tree; eauto. eapply anc_refl; eauto.
-    - pose proof (close_spec (w :: D) f w cw h1 HI1 Hw1 h1 eq_refl) as Hc.
+    - assert (Hrd1 : w_parent cw <> None -> ~ In root (w :: D)).
+      { intros Hpc [Ew|Hi]; [|exact (Hrd Hpc Hi)]. subst w. apply Hpc. exact (hi_root_parent (root :: D) h1 HI1 cw Hw1). }
+      pose proof (close_spec (w :: D) f w cw h1 HI1 Hw1 Hrd1 h1 eq_refl) as Hc.
       destruct (close fixed f w h1) as [u h2| |]; [|contradiction|exact I].
       destruct Hc as [HI2 [WK2 [SH2 [Hu2 [[cw2 [Hw2 [Hp2 _]]] _]]]]].
       split; [exact HI2|]. split; [exact WK2|]. split; [exact SH2|]. split; [exact Hu2|]. exists cw2. auto. }
